@@ -95,6 +95,26 @@ Proof.
   exact (final_from_spec n v post H a e b Hpost Ha He).
 Qed.
 
+(* in words, for the three kinds of observation of n (e is any such later entry) *)
+Theorem c04_published_lookup : forall vt ops,
+  conforms_v vt ops = true ->
+  forall pre n v out post a o r b,
+    trace vt ops = pre ++ (OEndOk n v, out) :: post ->
+    post = a ++ (o, r) :: b ->
+    forallb (fun x => negb (republishes n (fst x))) a = true ->
+    (forall early fout, o = OGet n early fout -> r = RVal (Some v) None) /\
+    (o = OBegin n -> r = RVal (Some v) None) /\
+    (o = OIsCreating n -> r = RBool false).
+Proof.
+  intros vt ops Hc pre n v out post a o r b Heq Hpost Ha.
+  assert (H : republishes n o = false -> obs_final n v (o, r) = true).
+  { intros He. exact (c04_published_is_final vt ops Hc pre n v out post Heq a (o, r) b Hpost Ha He). }
+  split; [|split].
+  - intros early fout Ho. subst o. exact (obs_final_get n v early fout r (H eq_refl)).
+  - intros Ho. subst o. exact (obs_final_begin n v r (H eq_refl)).
+  - intros Ho. subst o. exact (obs_final_creating n v r (H eq_refl)).
+Qed.
+
 Theorem c04_published_is_final_b : forall vt ops,
   conforms_v vt ops = true -> published_final_b (trace vt ops) = true.
 Proof. intros vt ops H. exact (published_final_from vt ops rinit [] (NoDup_nil _) H). Qed.
@@ -118,6 +138,25 @@ Proof.
   intros ops pre n out post Heq.
   pose proof (clean_failure_b_spec _ (clean_failure_from ops rinit) pre n out post Heq) as H.
   split; [exact H|exact (forgotten_no_stale_hits n post H)].
+Qed.
+
+(* in words: a lookup after the failure returns nil without running any factory (doGetComponent then
+   re-attempts the creation), the name is not in creation, GetSingletonOrCreateByFactory starts afresh *)
+Theorem c04_failed_lookup : forall ops pre n out post a o r b,
+  trace repaired ops = pre ++ (OEndErr n, out) :: post ->
+  post = a ++ (o, r) :: b ->
+  forallb (fun x => negb (introduces n (fst x))) a = true ->
+  (forall early fout, o = OGet n early fout -> r = RVal None None) /\
+  (o = OBegin n -> r = RVal None None) /\
+  (o = OIsCreating n -> r = RBool false).
+Proof.
+  intros ops pre n out post a o r b Heq Hpost Ha.
+  destruct (c04_clean_failure ops pre n out post Heq) as [Hf _].
+  pose proof (forgotten_from_spec n post Hf a (o, r) b Hpost Ha) as H.
+  split; [|split].
+  - intros early fout Ho. subst o. exact (obs_forgotten_get n early fout r H).
+  - intros Ho. subst o. exact (obs_forgotten_begin n r H).
+  - intros Ho. subst o. exact (obs_forgotten_creating n r H).
 Qed.
 
 Theorem c04_clean_failure_b : forall ops, clean_failure_b (trace repaired ops) = true.
